@@ -193,7 +193,15 @@ impl<'a> Judge<'a> {
     fn liveness(&self, out: &mut Vec<Finding>) {
         match &self.ex.outcome {
             Outcome::Deadlock => out.push(f("liveness", "deadlock", "no actor enabled before all finished")),
-            Outcome::Hang => out.push(f("liveness", "hang", "an actor did not reach a scheduling point in time")),
+            Outcome::Hang => out.push(f(
+                "liveness",
+                "hang",
+                if self.ex.steps.len() > crate::explore::MAX_STEPS {
+                    "an actor keeps retrying the same queue step without ever finishing its call (spinning)"
+                } else {
+                    "an actor did not reach a scheduling point in time"
+                },
+            )),
             _ => {}
         }
     }
